@@ -118,7 +118,8 @@ def check_strand_eval(chk) -> bool:
     fi = repo.func(MOD, "Strand.from_bpseq_entries")
     sf = repo.func(MOD, "Stem.from_bpseq_entries")
     db = "abcdefghijklmnopqrstuvwxyz"
-    letters = "ACGUNXYZKLMRSTWBDHVIPQEFJO"
+    # mixed case: lower-case letters (modified residues) are data like any other and are reported verbatim
+    letters = "ACgUnXyZKlmRSTwBDhVIPqEFjO"
     try:
         bad = []
         for first, n in ((5, 3), (2, 1), (9, 4), (1, 2)):
